@@ -411,7 +411,13 @@ func parseString(p *peeker) (node, hcl.Diagnostics) {
     if err != nil {
         var errRange hcl.Range
         if serr, ok := err.(*json.SyntaxError); ok {
+            // the offset counts the bytes read when the error was noticed, so the
+            // offending byte is the one before it (it is the last byte of the token
+            // when the string just ends too early)
             errOfs := serr.Offset
+            if errOfs > 0 {
+                errOfs--
+            }
             errPos := tok.Range.Start
             errPos.Byte += int(errOfs)
 
